@@ -26,7 +26,8 @@ const c14RootSchema = `{
 const c14SubSchema = `{
   "type": "object",
   "required": ["s"],
-  "properties": {"s": {"type": "string"}, "size": {"type": "integer", "maximum": 5}}
+  "properties": {"s": {"type": "string"}, "size": {"type": "integer", "maximum": 5},
+                 "global": {"type": "object", "properties": {"tier": {"enum": ["dev", "prod"]}}}}
 }`
 
 // c14Expect is stored in the OpSpec description so that the oracle knows what the generator intended.
@@ -154,6 +155,9 @@ func genC14(seed, index uint64, tier string) *Plan {
 				vals["count"] = float64(1 + g.N(10))
 				vals["mode"] = g.Pick("x", "y")
 			}
+			if g.Chance(0.3) {
+				vals["global"] = map[string]interface{}{"tier": g.Pick("dev", "prod")}
+			}
 		case 1:
 			violates = "root"
 			switch g.N(6) {
@@ -181,7 +185,11 @@ func genC14(seed, index uint64, tier string) *Plan {
 				break
 			}
 			violates = "sub"
-			switch g.N(3) {
+			switch g.N(4) {
+			case 3:
+				// a global the subchart's schema constrains (the root schema says nothing about it)
+				vals["global"] = map[string]interface{}{"tier": "bogus"}
+				rule = "global-enum"
 			case 0:
 				vals[subKey] = map[string]interface{}{"s": float64(5)}
 				rule = "type"
